@@ -13,15 +13,14 @@ Proof.
   repeat constructor; (eexists; split; [vm_compute; reflexivity | intro H; discriminate H]).
 Qed.
 
-(* FC02a: a role spelled Author does not survive BibTeXML; FC02b: a field called type does not survive YAML *)
+(* FC02b: a field called type does not survive YAML *)
 Definition knuth : person := mkPerson [[68; 111; 110; 97; 108; 100]] [[69; 46]] [] [[75; 110; 117; 116; 104]] [].
 Definition role_db (role : str) : wdb := mkWDb [mkWE [107] [98; 111; 111; 107] [] [(role, [knuth])]] [].
 Definition field_db (name v : str) : wdb := mkWDb [mkWE [107] [98; 111; 111; 107] [(name, v)] []] [].
 
-Lemma xml_role_case_refuted_pf :
-  exists rd, write_read latex_enc FXml (role_db [65; 117; 116; 104; 111; 114]) = Ok rd /\
-             we_persons (hd (mkWE [] [] [] []) (wd_entries rd)) = [] /\ rd <> role_db [65; 117; 116; 104; 111; 114].
-Proof. eexists; split; [vm_compute; reflexivity|]. split; [reflexivity|intro H; discriminate H]. Qed.
+(* FC02a repaired (afc7628): the role spelled Author now survives BibTeXML *)
+Lemma xml_role_case_fixed_pf : write_read latex_enc FXml (role_db [65; 117; 116; 104; 111; 114]) = Ok (role_db [65; 117; 116; 104; 111; 114]).
+Proof. vm_compute. reflexivity. Qed.
 
 Lemma yaml_type_field_refuted_pf :
   exists rd, write_read latex_enc FYaml (field_db k_type [84]) = Ok rd /\
